@@ -1,44 +1,92 @@
-/* C06 correspondence harness: the real qmail-remote.c blast() on generated messages.
- * usage: c06_blast <maxlen> <nrandom> <seed> <shard> <nshards>
- * output (one line per case):  <chunk> <input-hex> <O|P|T> <output-hex>
- *   O = blast returned, P = perm_partialline, T = any other exit            */
+/* C06 correspondence harness: the real qmail-remote.c blast() over the real substdio, on generated messages.
+ * usage: c06_blast <maxlen> <nrandom> <seed> <shard> <nshards>      |  c06_blast -   (cases "<plan> <hex>" on stdin)
+ * output (one line per case):  <plan> <input-hex> <O|P|R|D|T> <wire-hex> <nwrites> <smtpto.p> <buffered-hex>
+ *   O = blast returned, P = perm_partialline, R = temp_read (a read failed), D = dropped() (a write failed), T = any other exit
+ *   wire = concatenation of everything the socket took (also for P/R/D: what had been flushed before the exit),
+ *   buffered = smtptobuf[0..smtpto.p) at that moment, nwrites = number of write() calls on the socket.
+ * <plan> (one token) = <rplan>[/<wplan>]: how read() of the message file and write() to the socket behave. Each is a
+ *   comma-separated list of caps used cyclically, one per call (0 = no cap, e = the call fails with EIO).
+ *   A plain integer is the old <chunk> (read cap, unlimited writes).
+ * ssin reads through a scripted read(); smtpto keeps the real `safewrite` (GEN_SAFE_TIMEOUTWRITE: failure -> dropped()),
+ * timeoutwrite.o is replaced by the scripted socket. */
 #include "hcommon.h"
+#include <errno.h>
 #define _exit(x) h_exit(x)
 #define main qmail_remote_main
 #include "qmail-remote.c"
 #undef main
 #undef _exit
 
-static const unsigned char *in_p; static size_t in_n, in_pos; static int in_chunk;
+static const unsigned char *in_p; static size_t in_n, in_pos;
 static hbuf outb, repb;
+#define MAXPLAN 64
+static int rplan[MAXPLAN], rplan_n, wplan[MAXPLAN], wplan_n; static long rplan_k, wplan_k, nwrites;
+
+static const char *parse_caps(const char *t, int *plan, int *n) {
+  *n = 0;
+  while (*t && *t != '/') {
+    if (*n >= MAXPLAN) return 0;
+    if (*t == 'e') { plan[(*n)++] = -1; t++; }
+    else if (*t >= '0' && *t <= '9') { plan[(*n)++] = (int)strtol(t, (char **)&t, 10); }
+    else return 0;
+    if (*t == ',') t++;
+  }
+  return *n > 0 ? t : 0;
+}
+static int parse_plan(const char *t) {
+  t = parse_caps(t, rplan, &rplan_n);
+  if (!t) return 0;
+  if (*t == '/') { t = parse_caps(t + 1, wplan, &wplan_n); return t && !*t; }
+  wplan[0] = 0; wplan_n = 1;
+  return 1;
+}
 
 static ssize_t rd(int fd, char *buf, size_t len) {
+  int c = rplan[rplan_k++ % rplan_n];
+  if (c < 0) { errno = EIO; return -1; }
   size_t k = in_n - in_pos;
   if (k > len) k = len;
-  if (in_chunk > 0 && k > (size_t)in_chunk) k = in_chunk;
+  if (c > 0 && k > (size_t)c) k = c;
   memcpy(buf, in_p + in_pos, k); in_pos += k;
   return k;
 }
-static ssize_t wr(int fd, const char *buf, size_t len) { hbuf_add(&outb, buf, len); return len; }
+/* replaces timeoutwrite.o: the socket, taking what the write plan says */
+ssize_t timeoutwrite(int t, int fd, const void *buf, size_t len) {
+  int c = wplan[wplan_k++ % wplan_n];
+  nwrites++;
+  if (c < 0) { errno = EIO; return -1; }
+  size_t k = len;
+  if (c > 0 && k > (size_t)c) k = c;
+  hbuf_add(&outb, buf, k);
+  return k;
+}
 static ssize_t wrrep(int fd, const char *buf, size_t len) { hbuf_add(&repb, buf, len); return len; }
 
-static void one(const unsigned char *m, size_t n, int chunk) {
+static void onep(const unsigned char *m, size_t n, const char *tok) {
+  if (!parse_plan(tok)) return;
   substdio tin = SUBSTDIO_FDBUF(rd, -1, inbuf, sizeof inbuf);
-  substdio tto = SUBSTDIO_FDBUF(wr, -1, smtptobuf, sizeof smtptobuf);
+  substdio tto = SUBSTDIO_FDBUF(safewrite, -1, smtptobuf, sizeof smtptobuf);
   ssin = tin; smtpto = tto;
   subfdoutsmall->op = wrrep; subfdoutsmall->p = 0;
-  in_p = m; in_n = n; in_pos = 0; in_chunk = chunk;
+  in_p = m; in_n = n; in_pos = 0; rplan_k = wplan_k = nwrites = 0;
   hbuf_reset(&outb); hbuf_reset(&repb);
   flagcritical = 0;
   char st = 'O';
   h_exit_armed = 1;
   if (setjmp(h_jb) == 0) { blast(); }
   else {
-    st = (repb.n > 0 && repb.p[0] == 'D' && memmem(repb.p, repb.n, "partial final line", 18)) ? 'P' : 'T';
+    if (repb.n > 0 && repb.p[0] == 'D' && memmem(repb.p, repb.n, "partial final line", 18)) st = 'P';
+    else if (repb.n > 0 && repb.p[0] == 'Z' && memmem(repb.p, repb.n, "Unable to read message", 22)) st = 'R';
+    else if (repb.n > 0 && repb.p[0] == 'Z' && memmem(repb.p, repb.n, "but connection died", 19)) st = 'D';
+    else st = 'T';
   }
   h_exit_armed = 0;
-  fprintf(h_out, "%d ", chunk); h_hex(m, n); fprintf(h_out, " %c ", st); h_hex(outb.p, outb.n); fputc('\n', h_out);
+  fprintf(h_out, "%s ", tok); h_hex(m, n); fprintf(h_out, " %c ", st); h_hex(outb.p, outb.n);
+  fprintf(h_out, " %ld %d ", nwrites, smtpto.p);
+  h_hex((unsigned char *)smtptobuf, smtpto.p > 0 && smtpto.p <= (int)sizeof smtptobuf ? smtpto.p : 0);
+  fputc('\n', h_out);
 }
+static void one(const unsigned char *m, size_t n, int chunk) { char t[24]; snprintf(t, sizeof t, "%d", chunk); onep(m, n, t); }
 
 static int unhex(const char *h, unsigned char *o) {
   int n = 0;
@@ -52,9 +100,9 @@ int main(int argc, char **argv) {
     static char line[400000]; static unsigned char b[200000];
     h_init_out();
     while (fgets(line, sizeof line, stdin)) {
-      int chunk; static char hx[400000];
-      if (sscanf(line, "%d %s", &chunk, hx) != 2) continue;
-      one(b, unhex(hx, b), chunk);
+      char tok[800]; static char hx[400000];
+      if (sscanf(line, "%799s %s", tok, hx) != 2) continue;
+      onep(b, unhex(hx, b), tok);
     }
     fflush(h_out);
     return 0;
@@ -79,18 +127,77 @@ int main(int argc, char **argv) {
       if (len + 2 <= maxlen) for (int c = 1; c < 4; c++) one(m, len, chunks[c]);
     }
   }
-  /* random long messages */
+  /* random long messages; 7 of 8 are made to end with a line end so that most of them are transmitted (status O) */
   h_seed(seed * 1000003ull + shard);
   for (int r = 0; r < nrandom; r++) {
     if ((r % nshards) != shard) { continue; }
     size_t n = (r % 7 == 0) ? h_below(65536) : h_below(3000);
-    unsigned char *b = malloc(n + 1);
+    unsigned char *b = malloc(n + 2);
     int mode = h_below(3);
     for (size_t i = 0; i < n; i++) {
       uint32_t x = h_below(mode == 0 ? 8 : 40);
       b[i] = x == 0 ? '\r' : x == 1 ? '\n' : x == 2 ? '.' : x == 3 ? '\n' : (mode == 2 ? (unsigned char)h_below(256) : 'a' + h_below(26));
     }
+    uint32_t e = h_below(8);
+    if (e >= 2) b[n++] = '\n'; else if (e == 1) b[n++] = '\r';
     one(b, n, (int[]){0, 1, 7, 1024, 1500}[h_below(5)]);
+    free(b);
+  }
+  /* chunking sweep (theorems C06_chunking*): messages longer than inbuf/smtptobuf (1024), each under a fixed set of
+   * read plans x write plans (1, 2, 1023, 1024, 1025, full, mixed), random short reads and short writes, a failing
+   * read (temp_read) and a failing write (dropped) */
+  for (int r = 0; r < nrandom / 16 + 2; r++) {
+    if ((r % nshards) != shard) continue;
+    size_t n = 1030 + h_below(r % 5 == 0 ? 4400 : 2400);
+    unsigned char *b = malloc(n + 2);
+    int crlf = h_below(3);                         /* 0: LF line ends, 1: CR LF line ends, 2: mixed with bare CRs */
+    size_t i = 0;
+    while (i < n) {
+      uint32_t ll = h_below(70), kind = h_below(10);
+      if (kind == 0 && i < n) b[i++] = '.';
+      for (uint32_t j = 0; j < ll && i < n; j++) { uint32_t x = h_below(30); b[i++] = (x == 0 && crlf == 2) ? '\r' : x == 1 ? '.' : 'a' + x % 26; }
+      if (crlf != 0 && h_below(crlf == 1 ? 1 : 2) == 0 && i < n) b[i++] = '\r';
+      if (i < n) b[i++] = '\n';
+    }
+    if (r % 9 != 8) b[n - 1] = '\n';
+    static const char *fixed[] = { "0", "1", "2", "1023", "1024", "1025", "700,1023,5,1024,1",
+                                   "0/1", "0/2", "0/1023", "0/1024", "0/1025", "1023/1023", "1/1", "1024/3,1,1020,7", "1023,1/1,1022" };
+    for (unsigned k = 0; k < sizeof fixed / sizeof fixed[0]; k++) onep(b, n, fixed[k]);
+    for (int k = 0; k < 3; k++) {
+      char tok[800]; int o = 0;
+      for (int side = 0; side < 2; side++) {
+        int np = 1 + h_below(12);
+        if (side) tok[o++] = '/';
+        for (int j = 0; j < np; j++) {
+          uint32_t c = h_below(4) == 0 ? 1020 + h_below(8) : h_below(3) == 0 ? 1 + h_below(4) : 1 + h_below(1100);
+          o += snprintf(tok + o, sizeof tok - o, "%s%u", j ? "," : "", c);
+        }
+      }
+      onep(b, n, tok);
+    }
+    { char tok[64]; snprintf(tok, sizeof tok, "%u,%u,e/%u", 1 + h_below(1100), 1 + h_below(1100), h_below(3) * 500); onep(b, n, tok); }
+    { char tok[64]; snprintf(tok, sizeof tok, "%u/%u,%u,e", h_below(2) * 1023, 1 + h_below(1100), 1 + h_below(1100)); onep(b, n, tok); }
+    free(b);
+  }
+  /* every short string placed across the 1024-byte refill of inbuf (the CR look-ahead then needs a second read());
+   * the padding contains 0..2 LFs so that the flush of smtptobuf falls at different places too */
+  {
+    int wl = maxlen - 4 < 3 ? 3 : maxlen - 4;
+    unsigned char *b = malloc(1024 + wl + 8);
+    for (int len = 1; len <= wl; len++) {
+      uint64_t total = 1; for (int i = 0; i < len; i++) total *= 4;
+      for (uint64_t k = 0; k < total; k++, id++) {
+        if ((int)(id % nshards) != shard) continue;
+        for (int cut = 0; cut <= len; cut++) {
+          size_t pad = 1024 - cut, n = 0;
+          memset(b, 'a', pad); b[pad - 1] = '\n'; n = pad;
+          for (int j = 0; j < cut % 3; j++) b[100 + 7 * j] = '\n';
+          uint64_t v = k; for (int i = 0; i < len; i++) { b[n++] = alpha[v & 3]; v >>= 2; }
+          b[n++] = '\n';
+          onep(b, n, (cut & 1) ? "0/1024" : "0");
+        }
+      }
+    }
     free(b);
   }
   fflush(h_out);
